@@ -63,3 +63,14 @@ CLAIMS["C19"] = ("other",
     "selection rules. Three genuine defects found and repaired (fix: commits for orbit_cardinality x2, weight-mode index).",
     "bounded parts are never counted as proved; builtins max/sum/shuffle under library contracts",
     "deductive VCs for list functions + bounded exhaustive exploration of random choices", "DESIGN.md 5/C19")
+CLAIMS["C11"] = ("proof",
+    "The row-operation helpers of the gaussian_unitary and passive compilers (_apply_symp_one/two_mode_gate, "
+    "_apply_one/two_mode_gate, _beam_splitter_passive) are proved for EVERY matrix size and target rows: S' = E S, r' = E r with "
+    "the gate embedded at the target rows, whole-matrix postcondition. GaussianUnitary.compile is additionally executed for "
+    "real on six circuit shapes (incl. descending, non-contiguous and hash-unordered mode sets {1,8}) with all parameters "
+    "symbolic: the accumulated matrix equals the ordered product of the documented actions, the emitted GaussianTransform + "
+    "Dgates have the same action on the register order they state, elision only within np.allclose tolerance (shape-bounded, "
+    "reported separately). F13 (hash-order layout) found and repaired; F14 (dagger ignored) is an open finding.",
+    _TB + "thewalrus.symplectic helpers are executable models written from its documentation (conformance-tested natively); "
+    "ops.GaussianTransform.__init__ is a contract stub. gaussian_merge (DAG surgery) is not covered.",
+    "deductive verification: VCs from the real source + z3/cvc5", "DESIGN.md 5/C11")
